@@ -73,7 +73,7 @@ from ._state_token import (
     _deserialize_state_bytes,
     _mint_call_token,
     _mint_cursor_token,
-    _open_call_token,
+    _open_call_token_timestamped,
     _open_cursor_token,
     _resolve_state_cls,
     _ResolvedCall,
@@ -1213,7 +1213,15 @@ def _unpack_and_recover_state(
     resolved = app._call_state_cache.get(call_id, auth, now)
     if resolved is None:
         resolved = _resolve_call_from_token(app, call_token, call_id, state_info, auth)
-        app._call_state_cache.put(call_id, auth, resolved, now)
+        # Re-cache only for as long as the token just opened stays valid.
+        # ``now + ttl`` would let this process keep serving the stream after
+        # the token has expired everywhere a cache miss can still happen.
+        expires_at = (
+            float(resolved.created_at + app._token_ttl)
+            if app._token_ttl > 0 and resolved.created_at is not None
+            else None
+        )
+        app._call_state_cache.put(call_id, auth, resolved, now, expires_at=expires_at)
 
     if resolved.stream_id:
         _current_stream_id.set(resolved.stream_id)
@@ -1286,7 +1294,8 @@ def _resolve_call_from_token(
         input_schema_bytes,
         token_call_id,
         stream_id,
-    ) = _open_call_token(call_token, app._token_key, _compute_call_aad(auth), app._token_ttl)
+        created_at,
+    ) = _open_call_token_timestamped(call_token, app._token_key, _compute_call_aad(auth), app._token_ttl)
     # Constant-time compare: the ids are both server-minted and already
     # authenticated, so this is belt-and-braces against a client pairing two
     # of its own tokens from different streams.
@@ -1328,4 +1337,4 @@ def _resolve_call_from_token(
                 status_code=HTTPStatus.BAD_REQUEST,
             ) from exc
 
-    return _ResolvedCall(call_state, output_schema, input_schema, stream_id)
+    return _ResolvedCall(call_state, output_schema, input_schema, stream_id, created_at)
